@@ -48,9 +48,6 @@ M = [
     ("C08", "push-no-lock", "queue.go",
      "func (q *ConcurrentStack[T]) Push(val T) error {\n\tq.lock.Lock()\n\tdefer q.lock.Unlock()\n",
      "func (q *ConcurrentStack[T]) Push(val T) error {\n"),
-    ("C08", "poll-unlocks-explicitly-leaks-on-panic", "queue.go",
-     "func (q *ConcurrentQueue[T]) Poll() (T, error) {\n\tq.lock.Lock()\n\tdefer q.lock.Unlock()\n\n\treturn q.queue.Poll()\n}",
-     "func (q *ConcurrentQueue[T]) Poll() (T, error) {\n\tq.lock.Lock()\n\tv, err := q.queue.Poll()\n\tq.lock.Unlock()\n\n\treturn v, err\n}"),
     ("C09", "job-runs-twice-on-busy-path", "worker/pool.go",
      "\t\t\t\t\tjob()\n",
      "\t\t\t\t\tjob()\n\t\t\t\t\tif workerPoolSelf.workerBusy > workerPoolSelf.workerSizeStandBy+1 {\n\t\t\t\t\t\tjob()\n\t\t\t\t\t}\n"),
